@@ -30,7 +30,7 @@ META = {
                   'Trusted: TLC, asyncio FIFO scheduling, the fake ASGI server in engine/steploop.py.',
 }
 
-from engine import steploop
+from engine import bytesrc, steploop
 from engine.core import MachineryError, digest
 
 DISC, OK, CANCELLED, ERR = 0, -2, -3, -9
@@ -158,7 +158,7 @@ class _Run:
         scope = steploop.ws_scope('/', extra={'verif.run': self})
         self.app_task = asyncio.ensure_future(_app(case['mq'])(scope, srv.receive, srv.send))
         # handshake: run until the accept went out and everything started by it has settled
-        await steploop.settle(lambda: len(self.log))
+        await steploop.settle(lambda: len(self.log), limit=20000)
         if not any(e['e'] == 'SrvSend' and e['t'] == 'accept' for e in self.log):
             raise MachineryError('handshake did not complete: %r' % (self.log,))
         for s in case['stim']:
@@ -172,11 +172,11 @@ class _Run:
             elif s == 'S':
                 await asyncio.sleep(0)
             elif s == 'Q':
-                await steploop.settle(lambda: len(self.log))
+                await steploop.settle(lambda: len(self.log), limit=20000)
             else:
                 raise MachineryError('unknown stimulus %r' % (s,))
             self.stim_done += 1
-        await steploop.settle(lambda: len(self.log))
+        await steploop.settle(lambda: len(self.log), limit=20000)
         self.log.append({'e': 'End', 'p': len(steploop.pending_tasks([self.app_task, self.optask])),
                          'o': srv.outstanding})
         self.n_end = len(self.log)
@@ -188,10 +188,10 @@ class _Run:
         self.finished = True
         if self.inflight is not None:
             self._cancel()
-            await steploop.settle(lambda: len(self.log))
+            await steploop.settle(lambda: len(self.log), limit=20000)
         self.gates.open_all()
         self.final_gate.set_result(None)
-        await steploop.settle(lambda: len(self.log))
+        await steploop.settle(lambda: len(self.log), limit=20000)
         self.app_done = self.app_task.done()
         self.log.append({'e': 'Final', 'p': len(steploop.pending_tasks([])), 'o': srv.outstanding})
         if not self.app_task.done():
@@ -325,7 +325,17 @@ def run(ctx):
     counts = {'A1': 0, 'A2': 0, 'B': 0}
 
     def execute(case, origin, judge=True):
-        trace, info = run_case(stepper, case)
+        nonlocal stepper
+        try:
+            with bytesrc.watchdog(10.0):
+                trace, info = run_case(stepper, case)
+        except bytesrc.Hang as ex:                     # a call into the framework never came back to the loop
+            ctx.case({'origin': origin, 'case': case}, nontrivial=False, key=digest(case))
+            counts[origin] += 1
+            ctx.violation('P:hang', {'case': case}, 'the framework did not return control: %r' % (ex,),
+                          signature={'clause': 'P:hang', 'buffered': case['mq'] > 0})
+            stepper = steploop.Stepper()
+            return None, None
         key = digest(trace)
         ctx.case({'origin': origin, 'case': case}, nontrivial=info['racy'], key=key)
         counts[origin] += 1
@@ -364,6 +374,8 @@ def run(ctx):
         for variant in ctx.rng.sample(VARIANTS, ctx.pick(1, 2)):
             case = case_from_quiescent(b, variant)
             trace, info = execute(case, 'A1', judge=(i % judge_every == 0))
+            if trace is None:
+                continue
             want = [('Arrive', '', -1) if e['e'] == 'D' else ('Cancel', '', -1) if e['e'] == 'C' else
                     ('AppCall', e['op'], -1) if e['e'] == 'A' else ('AppRet', e['op'], e['r']) for e in b['h']]
             got = [(e, op, (r if e == 'AppRet' else -1)) for e, op, r in info['tokens']]
@@ -428,6 +440,33 @@ def run(ctx):
             ctx.detail(clause, {'case': case, 'trace': trace}, what)
         else:
             ctx.violation(clause, {'case': case, 'trace': trace}, what, signature=_signature(clause, case, trace, at))
+    # ---- binding self-test: the judge must reject corrupted versions of accepted traces -------------
+    import copy
+    corrupted = []
+    for (trace, case), v in zip(items, verdicts):
+        if v != 'ok' or len(corrupted) >= 60:
+            continue
+        idx = [i for i, e in enumerate(trace['ev']) if e['e'] == 'AppRet' and e['op'] == 'recv' and e['r'] >= 1]
+        if not idx:
+            continue
+        t1 = copy.deepcopy(trace)
+        t1['ev'][idx[0]]['r'] += 1                                # a receive returned the wrong message
+        t2 = copy.deepcopy(trace)
+        m = trace['ev'][idx[0]]['r']
+        k = next(i for i, e in enumerate(trace['ev']) if e['e'] == 'SrvRecvRet' and e['m'] == m)
+        del t2['ev'][k]                                           # the pull that fetched it is missing
+        t3 = copy.deepcopy(trace)
+        t3['ev'].insert(idx[0] + 1, dict(trace['ev'][idx[0]]))    # the same message is delivered twice
+        t3['ev'].insert(idx[0] + 1, ev('AppCall', op='recv'))
+        corrupted += [t1, t2, t3]
+    if not corrupted:
+        raise MachineryError('no accepted trace with a delivered message: nothing to corrupt')
+    cv = ctx.judge('WsBufferTrace', corrupted, workers=4, timeout=300)
+    ctx.traces_validated -= len(corrupted)
+    if any(v == 'ok' for v in cv):
+        raise MachineryError('the trace judge accepts a corrupted trace: %r' % (
+            [t for t, v in zip(corrupted, cv) if v == 'ok'][0],))
+    ctx.extra['judge_selftest'] = '%d corrupted traces (wrong message / missing pull / duplicate delivery) all rejected' % len(corrupted)
     ctx.extra['executions'] = dict(counts)
     ctx.extra['distinct_traces_judged'] = len(items)
     stepper.close()
